@@ -2,7 +2,7 @@ PROP = dict(
     harness="c13", level="exploration",
     make=["build/bin/c13", "build/gen/x86_forms.txt"],
     quick=dict(cases=2400000, max_size=100, workers=16),
-    thorough=dict(cases=1500000, max_size=100, workers=16, timeout=7200),
+    thorough=dict(cases=60000000, max_size=100, workers=16, timeout=7200),
     rule=("deterministic sweep: every x86 ISA-DB form x {32,64}-bit mode x 3 canonical instantiations (allowed mode: InstAPI::validate(), strict assembler and "
           "non-validating assembler must agree on success and bytes, and a form on the vendored accepted list must still be accepted; excluded mode: must be "
           "refused unless another form of the mnemonic admits the operands), every x86 and AArch64 instruction id and every DB alias for the name round trip "
